@@ -711,3 +711,135 @@ def kind_from_dtype(dt):
     if d.kind in "iu":
         return Kind(d.name)
     raise Unsupported("dtype %r" % (dt,))
+
+
+# ---------------------------------------------------------------------------
+# 2-D arrays (functional store): shape (R, C), element (i, j)
+# ---------------------------------------------------------------------------
+def _norm_slice(sl, n, what="slice"):
+    """Python slice semantics on an axis of (symbolic) length n -> (lo, length); symbolic negative bounds are obligations"""
+    if sl.step not in (None, 1):
+        raise Unsupported("slice step")
+
+    def bound(s, default):
+        if s is None:
+            return default
+        zz = _zi(s)
+        if _is_concrete(zz):
+            c = _cval(zz)
+            return zmin(z3.IntVal(c), n) if c >= 0 else zmax(n + c, z3.IntVal(0))
+        eng().prove("safety:slice-lo" if default is not n else "safety:slice-hi", zz >= 0,
+                    "symbolic slice bound must not be negative (silent wrap)")
+        return zmin(zz, n)
+    lo = bound(sl.start, z3.IntVal(0))
+    hi = bound(sl.stop, n)
+    return z3.simplify(lo), z3.simplify(zmax(hi - lo, z3.IntVal(0)))
+
+
+class SArr2:
+    __array_priority__ = 2000
+    ndim = 2
+    _pyvc_symbolic = True
+
+    def __init__(self, kind, R, C, fn):
+        self.kind, self.R, self.C, self.fn = kind, _zi(R), _zi(C), fn
+
+    @staticmethod
+    def symbolic(kind, R, C, hint="m"):
+        arr = fresh(z3.ArraySort(z3.IntSort(), z3.ArraySort(z3.IntSort(), kind.sort)), hint)
+        return SArr2(kind, R, C, lambda i, j: z3.Select(z3.Select(arr, i), j))
+
+    @staticmethod
+    def const(kind, R, C, v):
+        zz = kind.lift(v)
+        return SArr2(kind, R, C, lambda i, j: zz)
+
+    @property
+    def shape(self):
+        return (_mk_int(self.R), _mk_int(self.C))
+
+    @property
+    def size(self):
+        return _mk_int(self.R * self.C)
+
+    @property
+    def dtype(self):
+        return DType(self.kind)
+
+    def at(self, i, j):
+        return self.fn(_zi(i), _zi(j))
+
+    def copy(self):
+        return SArr2(self.kind, self.R, self.C, self.fn)
+
+    def _axis(self, key, n, axis):
+        """-> ('slice', lo, len) | ('index', i)"""
+        if isinstance(key, slice):
+            lo, ln = _norm_slice(key, n)
+            return ("slice", lo, ln)
+        zi = _zi(key)
+        if not eng().decide(z3.And(zi >= 0, zi < n)):
+            if eng().decide(z3.And(zi < 0, zi >= -n)):
+                if _is_concrete(zi):
+                    return ("index", z3.simplify(zi + n))
+                eng().fail("safety:index-negative-wrap", "symbolic index may be negative and wrap silently")
+                return ("index", zi + n)
+            raise IndexError("index out of bounds for axis %d" % axis)
+        return ("index", zi)
+
+    def __getitem__(self, key):
+        if not isinstance(key, tuple):
+            key = (key, slice(None))
+        a0 = self._axis(key[0], self.R, 0)
+        a1 = self._axis(key[1], self.C, 1)
+        f = self.fn
+        if a0[0] == "index" and a1[0] == "index":
+            return self.kind.wrap(f(a0[1], a1[1]))
+        if a0[0] == "slice" and a1[0] == "slice":
+            r0, c0 = a0[1], a1[1]
+            return SArr2(self.kind, a0[2], a1[2], lambda i, j: f(r0 + i, c0 + j))
+        if a0[0] == "index":
+            r, c0 = a0[1], a1[1]
+            return SArr.from_fn(self.kind, a1[2], lambda j: f(r, c0 + j))
+        r0, c = a0[1], a1[1]
+        return SArr.from_fn(self.kind, a0[2], lambda i: f(r0 + i, c))
+
+    def __setitem__(self, key, value):
+        if not isinstance(key, tuple):
+            key = (key, slice(None))
+        a0 = self._axis(key[0], self.R, 0)
+        a1 = self._axis(key[1], self.C, 1)
+        old = self.fn
+        k = self.kind
+        if a0[0] == "index" and a1[0] == "index":
+            r, c, v = a0[1], a1[1], k.lift(value)
+            self.fn = lambda i, j: z3.If(z3.And(i == r, j == c), v, old(i, j))
+            return
+        r0, h = (a0[1], a0[2]) if a0[0] == "slice" else (a0[1], z3.IntVal(1))
+        c0, w = (a1[1], a1[2]) if a1[0] == "slice" else (a1[1], z3.IntVal(1))
+        if isinstance(value, SArr2):
+            if not eng().decide(z3.And(value.R == h, value.C == w)):
+                raise ValueError("could not broadcast input array from shape (%s,%s) into shape (%s,%s)" % (value.R, value.C, h, w))
+            vf, vk = value.fn, value.kind
+            src = lambda i, j: k.lift(vk.wrap(vf(i - r0, j - c0)))
+        elif isinstance(value, SArr):
+            vs, vk = value.snapshot(), value.kind
+            if a0[0] == "index":
+                if not eng().decide(value.n == w):
+                    raise ValueError("could not broadcast input array")
+                src = lambda i, j: k.lift(vk.wrap(vs(j - c0)))
+            elif a1[0] == "index":
+                if not eng().decide(value.n == h):
+                    raise ValueError("could not broadcast input array")
+                src = lambda i, j: k.lift(vk.wrap(vs(i - r0)))
+            else:
+                if not eng().decide(value.n == w):
+                    raise ValueError("could not broadcast input array")
+                src = lambda i, j: k.lift(vk.wrap(vs(j - c0)))
+        else:
+            vz = k.lift(value)
+            src = lambda i, j: vz
+        self.fn = lambda i, j: z3.If(z3.And(i >= r0, i < r0 + h, j >= c0, j < c0 + w), src(i, j), old(i, j))
+
+    def __hash__(self):
+        return id(self)
